@@ -20,8 +20,8 @@
      [draw_z], [draw_bool], [draw_string], [draw_bytes], [draw_path], [draw_many] that RapidGen.gen consumes its tape with.
      Labels are evaluated and ignored.
    * Statements [rstmt]: `:=`, `=`, `var x T`, expression statements, `if init; c {…} else {…}`, `switch tag {case …}` /
-     `switch {case cond: …}` (default last), `for i := 0; i < n; i++ {…}` ([RsFor]: n is read when the loop is entered and
-     the body assigns neither i nor n: checked by the translator), `for _, x := range e {…}`, `return`, `continue`, and
+     `switch {case cond: …}` (default last), `for i := 0; i < n; i++ {…}` ([RsFor]: n is read when the loop is entered) and
+     `for _, x := range e {…}` (the body of a loop assigns no variable declared outside it, nor i or n: checked by the translator), `return`, `continue`, and
      `return rapid.Custom(func(t *rapid.T) T {…})` as one form ([RsReturnCustom]).
    * Values [rval]: Go ints (unbounded Z: nothing here comes near 2^63), bools, floats by their bits, strings with content
      ([RvStr]) and strings the model only knows as "some text" ([RvLabel]: field names, draw labels, messages), full names and
@@ -982,13 +982,14 @@ Section Interp.
 
     Section Loops.
       Variable body : renv -> rstore -> tape -> rres rsig.
-      (* for i := 0; i < n; i++: k iterations to go, i = j *)
+      (* for i := 0; i < n; i++: k iterations to go, i = j. The body assigns no variable declared outside the loop (checked by
+         the translator): every iteration starts from the environment of the loop, which is also the environment after it *)
       Fixpoint rp_for (i : gname) (k j : nat) (en : renv) (st : rstore) (tp : tape) {struct k} : rres rsig :=
         match k with
         | O => ROk (SgNext en) st tp
         | S k' =>
           match body (rp_set i (RvInt (Z.of_nat j)) en) st tp with
-          | ROk (SgNext en1) st1 tp1 | ROk (SgCont en1) st1 tp1 => rp_for i k' (S j) en1 st1 tp1
+          | ROk (SgNext _) st1 tp1 | ROk (SgCont _) st1 tp1 => rp_for i k' (S j) en st1 tp1
           | r => r
           end
         end.
@@ -997,7 +998,7 @@ Section Interp.
         | [] => ROk (SgNext en) st tp
         | v :: t =>
           match body (if rp_blank x then en else rp_set x v en) st tp with
-          | ROk (SgNext en1) st1 tp1 | ROk (SgCont en1) st1 tp1 => rp_range x t en1 st1 tp1
+          | ROk (SgNext _) st1 tp1 | ROk (SgCont _) st1 tp1 => rp_range x t en st1 tp1
           | r => r
           end
         end.
